@@ -177,6 +177,8 @@ class R7(ARig):
 def _run(ch, seq, offs, waiter, window, hdelay=0.0, start=0.0):
     rig = R7(ch, window)
     rig.handler_delay = hdelay
+    if rig.failure is None:
+        rig.loop.batch_choices_enabled = window > 0
     if rig.failure is not None:
         # the fault-free handshake did not complete: judge the dispatch seen so far
         why = rig.dispatch_violation()
